@@ -42,6 +42,24 @@ theorem lex_tokens_print (s : Str) : ∀ t ∈ (lex s).toks, t.tid ≠ .eof ∧ 
 
 example : (lex "x = 'a'\n".toList).toks.length = 6 := by decide +kernel
 
+/-- `error_located` (lexer part): a `ParseException` raised by the lexer carries either the BOM position `0:0`
+(input starts with U+FEFF) or a line number ≥ 1 and a column that is an offset inside the text -/
+theorem lex_error_located (s : Str) (l c : Nat) (h : (lex s).err = some (l, c)) :
+    (l = 0 ∧ c = 0 ∧ s.head? = some bom) ∨ (1 ≤ l ∧ c ≤ s.length) := by
+  unfold lex at h
+  split at h
+  · rename_i a as
+    split at h
+    · rename_i hb
+      simp at h
+      exact Or.inl ⟨h.1.symm, h.2.symm, by simpa using hb⟩
+    · have := lexGo_err_pos _ _ _ h
+      exact Or.inr ⟨this.1, by simpa using this.2⟩
+  · have := lexGo_err_pos _ _ _ h
+    exact Or.inr ⟨this.1, by simpa using this.2⟩
+
+example : (lex "a = \"".toList).err = some (1, 4) := by decide +kernel
+
 /-! ### parser: the raw print of an accepted input is the input -/
 
 /-- the full statement of losslessness (false of the code as it is, see the counterexamples) -/
